@@ -272,6 +272,9 @@ func (m *Model) evalConds(c Conds, b, n string) condEval {
 		if e.c.K == "" {
 			continue
 		}
+		if !e.isGen && cur != nil && cur.Metagen == 0 {
+			continue // object without sidecar (metageneration unknown): metageneration conditions are not sent
+		}
 		s, v, ok := resolve(e.c, e.isGen)
 		ev.Query.Set(e.name, s)
 		if !ok {
